@@ -39,6 +39,32 @@ pub fn check_clean(s: &str) -> CaseResult {
     Ok(())
 }
 
+/// Paths that are not valid UTF-8 (unix paths are byte strings; Go's path.Clean works on bytes too): the
+/// reference is applied through a byte <-> U+00XX mapping, which leaves '/' and '.' alone
+pub fn check_clean_bytes(b: &[u8]) -> CaseResult {
+    use std::os::unix::ffi::{OsStrExt, OsStringExt};
+    let input = std::ffi::OsStr::from_bytes(b);
+    let shown = || String::from_utf8_lossy(b).to_string();
+    let got = match catch(|| sys::clean(input)) {
+        Ok(g) => g,
+        Err(p) => return Err(Failure::new(format!("clean|panic|{}|bytes", panic_site(&p)), format!("clean({:?} as bytes {:?}) panicked: {}", shown(), b, p))),
+    };
+    let latin: String = b.iter().map(|x| *x as char).collect();
+    let want: Vec<u8> = ref_clean(&latin).chars().map(|ch| ch as u32 as u8).collect();
+    let got_b = got.clone().into_os_string().into_vec();
+    if got_b != want {
+        return Err(Failure::new("clean|value-mismatch|non-utf8-bytes", format!("clean(bytes {:?}) = bytes {:?}, Go path.Clean gives {:?}", b, got_b, want)));
+    }
+    let again = match catch(|| sys::clean(&got)) {
+        Ok(g) => g,
+        Err(p) => return Err(Failure::new(format!("clean|panic|{}|bytes", panic_site(&p)), format!("clean(bytes {:?}) panicked: {}", got_b, p))),
+    };
+    if again.into_os_string().into_vec() != got_b {
+        return Err(Failure::new("clean|not-idempotent|non-utf8-bytes", format!("clean(bytes {:?}) = {:?} is not a fixed point", b, got_b)));
+    }
+    Ok(())
+}
+
 fn nontrivial(s: &str) -> bool {
     let mut dd = false;
     let mut normal = false;
@@ -53,7 +79,7 @@ fn nontrivial(s: &str) -> bool {
 }
 
 pub fn run(c: &Ctx) {
-    c.set_rule("exhaustive: every string over {'/','.','a','b'} up to length 9 (quick) / 11 (thorough), then seeded random strings <=48 symbols over an adversarial alphabet (multi-byte, '~', '$', ':', NUL, newline). Oracle: independent port of Go path.Clean + idempotence + absoluteness + non-empty. Non-trivial = input containing at least one '..' component and one normal component; distinct by input string.");
+    c.set_rule("exhaustive: every string over {'/','.','a','b'} up to length 9 (quick) / 11 (thorough), every byte string over {'/','.','a',0xE9,0xFF} up to length 6 / 7 that is not valid UTF-8 (reference applied byte-wise), then seeded random strings <=48 symbols over an adversarial alphabet (multi-byte, '~', '$', ':', NUL, newline). Oracle: independent port of Go path.Clean + idempotence + absoluteness + non-empty. Non-trivial = input containing at least one '..' component and one normal component; distinct by input string.");
     c.assume("ref_clean is a faithful port of Go's path.Clean (checked against Go's own cleantests table in harness unit tests)");
     let max_len = c.tier.pick(9, 11);
     let n = count_upto(4, max_len);
@@ -73,6 +99,36 @@ pub fn run(c: &Ctx) {
     });
     c.note("exhaustive_space", format!("all {} strings over {{/ . a b}} up to length {}", n, max_len));
     c.set_exhaustive(true);
+    // byte strings that are not valid UTF-8: every sequence over {'/', '.', 'a', 0xE9, 0xFF} up to length 6 / 7
+    let balpha: [u8; 5] = [b'/', b'.', b'a', 0xE9, 0xFF];
+    let blen = c.tier.pick(6u32, 7);
+    let mut total = 0u64;
+    for l in 1..=blen {
+        total += 5u64.pow(l);
+    }
+    par_for(total, 2048, |i| {
+        // decode index -> (length, digits)
+        let mut rest = i;
+        let mut l = 1u32;
+        while rest >= 5u64.pow(l) {
+            rest -= 5u64.pow(l);
+            l += 1;
+        }
+        let mut b = Vec::with_capacity(l as usize);
+        for _ in 0..l {
+            b.push(balpha[(rest % 5) as usize]);
+            rest /= 5;
+        }
+        if std::str::from_utf8(&b).is_ok() {
+            return; // covered by the string enumeration
+        }
+        c.eval(1);
+        c.class("exhaustive:non-utf8-bytes");
+        if b.windows(2).any(|w| w == b"..") && b.iter().any(|x| *x >= 0x80) {
+            c.nontrivial(fp(&b));
+        }
+        c.judge("clean-bytes", &b, check_clean_bytes(&b));
+    });
     let cases = c.tier.pick(200_000, 3_000_000);
     run_proptest("clean", 14, || string_over(ADVERSARIAL, 48), cases, |s: &String| {
         mark("clean", s);
@@ -92,6 +148,10 @@ pub fn run(c: &Ctx) {
 pub fn replay(kind: &str, case: &Value) -> Option<CaseResult> {
     match kind {
         "clean" => Some(check_clean(case.as_str()?)),
+        "clean-bytes" => {
+            let b: Vec<u8> = serde_json::from_value(case.clone()).ok()?;
+            Some(check_clean_bytes(&b))
+        },
         _ => None,
     }
 }
